@@ -821,6 +821,11 @@ def schnorrsig_sign(
         raise ValueError("Extra data should be 32 bytes long")
     if len(keypair) == 32:
         keypair = keypair_create(keypair, context=context)
+    else:
+        assert len(keypair) == 96
+        # libsecp256k1 aborts the process on an inconsistent keypair structure
+        if keypair != keypair_create(keypair[:32], context=context):
+            raise ValueError("Invalid keypair")
     with _lock:
         assert len(keypair) == 96
         sig = bytes(64)
